@@ -1,24 +1,55 @@
-From Orbit Require Export Corr.Common Model.Net Corr.C01.
+From Orbit Require Export Corr.Common Model.Net Model.NetHoles Model.Current Corr.C01.
 
 Inductive case :=
 (* final phase reached: all acknowledged writes, and each replica's listing *)
 | CFinal (written : list N) (logs : list (list N))
 (* the cover invariant observed on a replica at rest: its entries and its cached heads;
    the universe is given as (hash, links) pairs *)
-| CCover (univ : list (N * list N)) (log cached : list N).
+| CCover (univ : list (N * list N)) (log cached : list N)
+(* the hole invariant observed on a replica at rest: its entries (with their links, [univ]
+   lists the held entries only) and the hashes its replicator remembers as failed *)
+| CHoles (univ : list (N * list N)) (log failed : list N)
+(* a scripted history (writes, replication requests with the fetch outcome the script
+   arranged, restarts) replayed on the model [Model/NetHoles.v]: the universe observed
+   (hash, next ∪ refs), per replica the observed log and failed hashes; [final]: the
+   observation was made after the final phase *)
+| CHist (n : nat) (steps : list hstep) (final : bool) (univ : list (N * list N)) (obs : list (list N * list N)).
 
 Definition to_uents (u : list (N * list N)) : list uent := map (fun p => mkU (fst p) (snd p) true) u.
 
 Definition check (c : case) : bool * bool :=
   match c with
   | CFinal written logs =>
-    (* model (net_converges): after the final phase every replica holds exactly the written entries *)
+    (* model (net_converges, holes_converge): after the final phase every replica holds exactly the written entries *)
     let ok := forallb (fun l => setN_eqb l written) logs in (ok, ok)
   | CCover univ log cached =>
     let U := to_uents univ in
     let cover := forallb (fun h => memN h (anc_set U cached)) log in
-    (* model (net_cover) and property agree: every held entry is in the ancestry of a cached head *)
+    (* model (net_cover, holes_invariant) and property agree: every held entry is in the ancestry of a cached head *)
     (cover, cover)
+  | CHoles univ log failed =>
+    let U := to_uents univ in
+    (* what the convergence proof rests on (holes_invariant): every link target of a held
+       entry is held or remembered as failed, so that the next request retries it *)
+    let inv := forallb (fun y => memN y failed) (dangling U log) in
+    (* the model with the mechanism of this tree: with [records_missing] the invariant holds in
+       every reachable state; without it the model (like the code) can lose the record *)
+    ((if c02_records_missing_current then inv else true), inv)
+  | CHist n steps final univ obs =>
+    let rm := c02_records_missing_current in
+    let s0 := hrun rm steps (hinit n) in
+    let s := if final then hfinal rm s0 else s0 in
+    (* the model's entries carry the links the code gave them *)
+    let links_ok := Nat.eqb (length (h_univ s)) (length univ) &&
+                    forallb (fun p => setN_eqb (links_of (h_univ s) (fst p)) (snd p)) univ in
+    (* per replica: same log; same failed hashes (the code also keeps, harmlessly, failed
+       hashes that meanwhile entered the log: they are skipped when retried) *)
+    let reps_ok := Nat.eqb (length (h_reps s)) (length obs) &&
+                   forallb (fun p => setN_eqb (h_log (fst p)) (fst (snd p)) &&
+                                     setN_eqb (h_failed (fst p))
+                                              (filter (fun x => negb (memN x (fst (snd p)))) (snd (snd p))))
+                           (combine (h_reps s) obs) in
+    (links_ok && reps_ok, true)
   end.
 
 Definition failures (base : nat) (cs : list case) := failures_from check base cs.
